@@ -2,8 +2,13 @@
 //! scratch file under /verif/work) and evaluates `Ledger::eval("1 A", {date, exchange: B})` for all requested
 //! pairs and dates.
 //!
-//! case  : `<id> dates=((d Y M D) ...) comms=(A B ...) pdb=(<echoed>) db=<enc text|~> ledger=<enc text>`
-//! output: `<id> tree=(...) pdb=(...) result=<ok|(...)> q=(((d Y M D) A B (ok (c n m s) ...)|(err Kind)) ...)`
+//! case  : `<id> dates=((d Y M D) ...) comms=(A B ...) pdb=(<echoed>) [db=<enc text|~>] ledger=<enc text>`
+//!         (`db` present: the text is written to a scratch file and given as `ProcessOptions.price_db_path`,
+//!          also when it is empty; `db` absent: no price db path)
+//! output: `<id> tree=(...) pdb=(...) [db=<echoed>] result=<ok|(...)> [dberr=(<offset> <end> <line_start>)|io]
+//!          q=(((d Y M D) A B (ok (c n m s) ...)|(err Kind)) ...)`
+//!         `dberr` is present when `process` failed with `ReportError::PriceDB`: the `error_span` and `line_start`
+//!         of the `ParseError` (taken from its `Debug` text: the type's fields are private), or `io`.
 use std::io::{BufRead, Write};
 use std::path::PathBuf;
 use std::sync::atomic::{AtomicUsize, Ordering};
@@ -116,21 +121,45 @@ pub fn eval_sx<'ctx>(ledger: &mut query::Ledger<'ctx>, ctx: &ReportContext<'ctx>
     }
 }
 
+/// `(offset end line_start)` of a price-db `ParseError`, `io` for `LoadError::IO`; `None` for other errors
+pub fn db_err_sx(e: &report::ReportError) -> Option<String> {
+    let report::ReportError::PriceDB(le) = e else {
+        return None;
+    };
+    if let report::LoadError::IO(_) = le {
+        return Some("io".to_string());
+    }
+    let d = format!("{:?}", le);
+    // ParseErrorImpl { renderer: .., error_span: a..b, input: "..", line_start: n, winnow_error: .. }
+    let i = d.find("error_span: ")? + "error_span: ".len();
+    let rest = &d[i..];
+    let (a, rest) = rest.split_once("..")?;
+    let b: String = rest.chars().take_while(|c| c.is_ascii_digit()).collect();
+    let j = d.rfind("\", line_start: ")? + "\", line_start: ".len();
+    let l: String = d[j..].chars().take_while(|c| c.is_ascii_digit()).collect();
+    let (a, b, l): (usize, usize, usize) = (a.parse().ok()?, b.parse().ok()?, l.parse().ok()?);
+    Some(format!("({} {} {})", a, b, l))
+}
+
 pub fn run(_args: &[String], out: &mut dyn Write) -> i32 {
     let stdin = std::io::stdin();
     for line in stdin.lock().lines() {
         let line = line.unwrap();
         let (id, fs) = split_fields(&line);
-        let (Some(dates), Some(comms), Some(db), Some(ledger)) =
-            (field(&fs, "dates"), field(&fs, "comms"), field(&fs, "db"), field(&fs, "ledger"))
-        else {
+        let (Some(dates), Some(comms), Some(ledger)) = (field(&fs, "dates"), field(&fs, "comms"), field(&fs, "ledger")) else {
             writeln!(out, "{} bad-case", id).unwrap();
             continue;
         };
+        let db = field(&fs, "db");
         let pdb = field(&fs, "pdb").unwrap_or("()").to_string();
+        // the price-db text is echoed so that the model parses the same text
+        let pdb = match db {
+            Some(t) => format!("{} db={}", pdb, t),
+            None => pdb,
+        };
         let dates: Vec<chrono::NaiveDate> = list_items(dates).iter().filter_map(|d| parse_date(d)).collect();
         let comms: Vec<String> = list_items(comms).iter().filter_map(|c| sx::dec(c)).collect();
-        let db_text = sx::dec(db).unwrap_or_default();
+        let db_text = db.map(|t| sx::dec(t).unwrap_or_default());
         let text = sx::dec(ledger).unwrap_or_default();
         let files: proc::Files = vec![("/r/main.ledger".to_string(), text)];
         let root = "/r/main.ledger";
@@ -141,7 +170,7 @@ pub fn run(_args: &[String], out: &mut dyn Write) -> i32 {
                 continue;
             }
         };
-        let db_path = if db_text.is_empty() { None } else { Some(write_db("C09", &db_text)) };
+        let db_path = db_text.as_ref().map(|t| write_db("C09", t));
         let dbp = db_path.clone();
         let files2 = files.clone();
         let r = sx::catch(move || {
@@ -150,7 +179,10 @@ pub fn run(_args: &[String], out: &mut dyn Write) -> i32 {
             let opts = report::ProcessOptions { price_db_path: dbp };
             let processed = report::process(&mut ctx, proc::fake_loader(&files2, root), &opts);
             let ret = match processed {
-                Err(e) => (format!("(processerr {})", enc(&proc::render_chain(&e).lines().next().unwrap_or("").to_string())), String::new()),
+                Err(e) => {
+                    let dberr = db_err_sx(&e).map(|x| format!(" dberr={}", x)).unwrap_or_default();
+                    (format!("(processerr {}){}", enc(&proc::render_chain(&e).lines().next().unwrap_or("").to_string()), dberr), String::new())
+                }
                 Ok(mut ledger) => {
                     let mut qs = Vec::new();
                     for d in &dates {
